@@ -285,8 +285,7 @@ Proof.
     + pose proof (inv_pend _ Hinv) as Hp. rewrite Forall_forall in Hp. specialize (Hp lp (nth_error_In _ _ En)).
       unfold pend_ok in Hp. rewrite Ep in Hp. inversion Hp as [|? ? Hip _]; subst.
       destruct (rt_find (routers st) ip) as [r|] eqn:Ef; [|congruence]. exists ip, r. split; [exact Ef|reflexivity].
-    + pose proof (inv_loops _ Hinv) as Hl. rewrite Forall_forall in Hl. specialize (Hl lp (nth_error_In _ _ En)).
-      unfold dst_ok in Hl. unfold forge. cbn [na_hop]. rewrite Hl. reflexivity.
+
   - unfold rx_ra in Hs.
     repeat match type of Hs with
     | snd (if ?b then _ else _) = _ => destruct b; simpl in Hs; try discriminate
